@@ -11,6 +11,7 @@ import Spydr.Verilog.RoundTripRenderB
 import Spydr.Verilog.RoundTripLexB
 import Spydr.Verilog.RoundTripStruct
 import Spydr.Verilog.RoundTripLeafF
+import Spydr.Verilog.RoundTripLeafI
 
 #print axioms Spydr.Verilog.getWires_spec
 #print axioms Spydr.Verilog.getWires_spec_single_all
@@ -125,3 +126,16 @@ import Spydr.Verilog.RoundTripLeafF
 #print axioms Spydr.Verilog.Elab.c04_view_bb
 #print axioms Spydr.Verilog.Elab.c04_ast_bb
 #print axioms Spydr.Verilog.Elab.exNetBB_frag
+#print axioms Spydr.Verilog.Elab.primBodyGo_ports
+#print axioms Spydr.Verilog.Elab.moduleP_leaf
+#print axioms Spydr.Verilog.Elab.topGo_leaf
+#print axioms Spydr.Verilog.Elab.preprocess_keep
+#print axioms Spydr.Verilog.Elab.parse_bb
+#print axioms Spydr.Verilog.Elab.moduleText_leaf
+#print axioms Spydr.Verilog.Elab.composeV_text_bb
+#print axioms Spydr.Verilog.Elab.chars_leafP
+#print axioms Spydr.Verilog.Elab.toks_leafP
+#print axioms Spydr.Verilog.Elab.chars_filePbb
+#print axioms Spydr.Verilog.Elab.c04_text_bb
+#print axioms Spydr.Verilog.Elab.exNetBB_struct
+#print axioms Spydr.Verilog.Elab.exNetBB_roundtrip
